@@ -85,6 +85,7 @@ type RSpec struct {
 	Code    int // 0 = default
 	Body    bool
 	Headers []PSpec
+	File    bool // the response is a stream of bytes (schema type file)
 }
 
 type OSpec struct {
@@ -93,6 +94,7 @@ type OSpec struct {
 	Body             int // 0 none, 1 optional, 2 required
 	Responses        []RSpec
 	Consumes         []string
+	Produces         []string
 	Security         [][]string // nil = inherit; empty non-nil = none; scheme names with optional ":scope,scope"
 	HasSecurity      bool
 }
@@ -227,6 +229,9 @@ func (sp *Spec) JSON() map[string]interface{} {
 			if r.Body {
 				rm["schema"] = map[string]interface{}{"$ref": "#/definitions/Msg"}
 			}
+			if r.File {
+				rm["schema"] = map[string]interface{}{"type": "file"}
+			}
 			if len(r.Headers) > 0 {
 				hs := map[string]interface{}{}
 				for k := range r.Headers {
@@ -243,6 +248,9 @@ func (sp *Spec) JSON() map[string]interface{} {
 		o := map[string]interface{}{"operationId": op.ID, "parameters": params, "responses": resps}
 		if len(op.Consumes) > 0 {
 			o["consumes"] = op.Consumes
+		}
+		if len(op.Produces) > 0 {
+			o["produces"] = op.Produces
 		}
 		if op.HasSecurity {
 			o["security"] = secJSON(op.Security)
@@ -700,6 +708,13 @@ func (g *gen) spec(nops int, variant int) *Spec {
 		sp.Ops = append(sp.Ops, op)
 	}
 	// fixed operations: combinations the random draw may miss
+	// a download: the response is a stream of bytes next to headers of formatted types (the client reads them with the formats registry)
+	sp.Ops = append(sp.Ops, OSpec{ID: "opdownload", Method: "get", Path: "/opdownload", Produces: []string{"application/octet-stream"},
+		Params: []PSpec{{Name: "name", GoName: "Name", In: "query", Type: "string"}},
+		Responses: []RSpec{{Code: 200, File: true, Headers: []PSpec{{Name: "X-Stamp", GoName: "XStamp", Type: "string", Format: "date-time"}, {Name: "X-Rate", GoName: "XRate", Type: "integer", Format: "int64"}}},
+			{Code: 404, Headers: []PSpec{{Name: "X-Stamp", GoName: "XStamp", Type: "string", Format: "date-time"}}}},
+		HasSecurity: true, Security: [][]string{}})
+	g.hit("response:file-stream")
 	sp.Ops = append(sp.Ops, OSpec{ID: "opform", Method: "post", Path: "/opform", Consumes: []string{"application/x-www-form-urlencoded", "multipart/form-data"},
 		Params: []PSpec{
 			{Name: "note", GoName: "Note", In: "formData", Type: "string", Required: true, AllowEmpty: true},
